@@ -135,9 +135,17 @@ func (ml *TruncatingMethodLogger) truncateMetadata(mdPb *binlogpb.Metadata) (tru
 		}
 		bytesLimit -= currentEntryLen
 	}
-	truncated = index < len(mdPb.Entry)
-	mdPb.Entry = mdPb.Entry[:index]
-	return truncated
+	// "grpc-trace-bin" is always kept, also when it comes after the entry that
+	// exceeded the limit.
+	n := len(mdPb.Entry)
+	kept := mdPb.Entry[:index]
+	for _, entry := range mdPb.Entry[index:] {
+		if entry.Key == "grpc-trace-bin" {
+			kept = append(kept, entry)
+		}
+	}
+	mdPb.Entry = kept
+	return len(kept) < n
 }
 
 func (ml *TruncatingMethodLogger) truncateMessage(msgPb *binlogpb.Message) (truncated bool) {
